@@ -32,7 +32,12 @@ fn usage() -> ! {
 
 /// One pass of a check; Some(message) if the machinery failed.
 fn run_pass(ctx: &Ctx, id: &str) -> Option<String> {
-    match std::panic::catch_unwind(std::panic::AssertUnwindSafe(|| checks::run(ctx))) {
+    let r = std::panic::catch_unwind(std::panic::AssertUnwindSafe(|| checks::run(ctx)));
+    if cfg!(feature = "no_responder_api") {
+        let used = util::RESPONDER_API_SKIPPED.load(std::sync::atomic::Ordering::Relaxed);
+        ctx.cov("harness_built_without_responder_api", serde_json::json!(if used { "the tree's roughenough::responder::Responder API differs from the one the harness is written against: the parts of this check that call it directly were skipped; everything else ran" } else { "yes (this check has no part that calls it)" }));
+    }
+    match r {
         Ok(Ok(())) => None,
         Ok(Err(e)) => {
             eprintln!("MACHINERY-ERROR {}: {}", id, e);
